@@ -8,7 +8,7 @@ from math import gcd
 from . import common
 from .common import MachineryError, run_tlc
 
-SOLVER_EVENTS = {"raise", "pad", "clamp", "spectrum", "thread_setup", "kernel_call", "mean_store", "untruncate", "crop", "return"}
+SOLVER_EVENTS = {"raise", "pad", "clamp", "spectrum", "modes", "thread_setup", "kernel_call", "mean_store", "untruncate", "crop", "return"}
 MAXINT = 10**6
 
 
@@ -104,6 +104,8 @@ def to_model_call(call):
             r.update(nlx=e["nlx"], nly=e["nly"], dlx=e["dlx"], dly=e["dly"])
         elif k == "spectrum":
             r.update(shape=e["shape"])
+        elif k == "modes":
+            r.update(ilx=[int(v) for v in e["ilx"]], ily=[int(v) for v in e["ily"]])
         elif k == "mean_store":
             r.update(node=e["node"], slot=e["slot"])
         elif k == "untruncate":
